@@ -22,7 +22,8 @@ RULE = ("cases: single (base, mask) objects incl. all contiguous masks, complete
         "limits L in 0..30 with k in {L-1,L,L+1} and invalid L; histories of 2..8 line reassignments interleaved "
         "with queries on one Wildcard / Address object (every written line has a unique base); fprefix/fsubnet. "
         "judged = monitor evaluations (every return of ipnets()/derived views + every accept/reject decision); "
-        "distinct non-trivial = distinct (kind, k, trailing-run length, history shape) with k>0 or a reassignment")
+        "distinct non-trivial = distinct (kind, k, trailing-run length, history shape) with k>0 or a reassignment"
+        " Round 4: factories called with explicit limits 0..30 (incl. /0 and the zero netmask), limit enforced at k = L-1, L, L+1.")
 ASSUMPTIONS = ["object state after a rejected line assignment is not judged (no property states atomicity)",
                "bool limits are ints in Python and are not judged"]
 
